@@ -96,6 +96,7 @@ type Exec struct {
 	assertedVars    map[string]bool
 	known           map[int]bool
 	mergeDepth      int
+	nDecisions      int
 	streamQueries   int
 	streamFallbacks int
 	mergeBase       int
@@ -211,6 +212,7 @@ func (e *Exec) resetPath() {
 	e.nextObj = 0
 	e.cursor = 0
 	e.steps = 0
+	e.nDecisions = 0
 	e.writes = 0
 	e.decs = 0
 	e.frame = nil
@@ -357,6 +359,9 @@ func (e *Exec) decide1(c *Term) bool {
 	if e.cursor < len(e.trace) {
 		ent := &e.trace[e.cursor]
 		e.cursor++
+		if ent.kind == 'd' {
+			e.nDecisions++
+		}
 		if ent.needAssert {
 			ent.needAssert = false
 			ent.depthBefore = e.sol.Depth()
@@ -388,8 +393,17 @@ func (e *Exec) decide1(c *Term) bool {
 		}
 	default:
 		ent.kind, ent.val, ent.open = 'd', true, true
+		// a harness spec may fix the outcome of the first decisions ("prefix" of T/F) so that
+		// one exploration is partitioned over several workers; all prefixes together cover everything
+		if pf := e.cfg["prefix"]; e.nDecisions < len(pf) {
+			ent.val = pf[e.nDecisions] == 'T'
+			ent.open = false
+		}
 		e.sol.Push()
-		e.assertLit(c, true)
+		e.assertLit(c, ent.val)
+	}
+	if ent.kind == 'd' {
+		e.nDecisions++
 	}
 	e.trace = append(e.trace, ent)
 	e.cursor++
